@@ -90,6 +90,40 @@ func genFaults(c *Ctx, kinds []string) {
 			}
 		}
 	}
+	// operators outside the Lean model, named by the properties' quantifier: joins, collector-backed streams,
+	// timeseries / tsquery pipelines, JSON providers, FromIterator. Sequential, so every fault position is on the
+	// demand path; decided by the spec predicate on the real code (SPEC cases).
+	specPipes := []string{
+		"jinner 2 lc 2 src 0 1,2,3 lc 3 src 1 2,3,4",
+		"jleft 3 src 0 1,2,3 lc 4 src 1 2,4 src 2 -",
+		"jfull 2 lc 2 src 0 1,3 src 1 2,3",
+		"join2 lc 2 src 0 1,2,2,3 lc 3 src 1 2,3",
+		"ljoin2 src 0 1,2,3 lc 3 src 1 2",
+		"limit 2 jfull 3 src 0 1,4 src 1 2,5 lc 5 src 2 3,6",
+		"sample 2 lc 1 src 0 1,2,3,4",
+		"lc 2 sample 3 map add:1 lc 1 src 0 1,2",
+		"concat 2 sample 1 lc 2 src 0 1,2 lc 3 src 1 3",
+		"align 10 lc 1 src 0 1,2,11,12,25",
+		"alignsum 10 lc 1 src 0 1,2,11,12,25",
+		"adelta 10 lc 1 src 0 1,5,11,19,25",
+		"gapfill 10 lc 1 src 0 1,2,31,45",
+		"dsalign 10 lc 1 src 0 1,12,35",
+		"lc 2 jsonarr 0 1,2,3",
+		"concat 2 jsonarr 0 1,2 lc 3 jsonarr 1 -",
+		"zip 2 jsonarr 0 1,2,3 lc 2 src 1 4,5",
+		"lc 1 fromiter 1,2,3",
+		"lc 1 map add:1 file 1,2,3",
+		"concat 2 lc 1 file 1,2 rfile 3,4",
+		"zip 2 file 1,2,3 lc 2 src 0 4,5",
+		"filter mod:2:0 lc 3 rfile 1,2,3,4",
+		"merge 2 lc 1 fromiter 1,3 lc 2 fromiter 2,4",
+		"cluster 10 sum align 5 lc 1 src 0 1,2,7,12,13",
+	}
+	for _, p := range specPipes {
+		for _, t := range terms {
+			faultSweep(c, "SPEC "+p, t, kinds, true)
+		}
+	}
 	n := c.Pick(250, 4000)
 	for i := 0; i < n; i++ {
 		g := &pgen{rng: c.Rng, srcMax: 5}
